@@ -91,6 +91,10 @@ def cases(c):
         for j in range(n):
             N = int(rng.integers(16, 72))
             params = E.draw(rng, cls, N)
+            if cls == 'pburg' and (j // 2) % 2 == 0:
+                # an order-selection criterion that usually stops before the (generous) requested order
+                params['order'] = int(min(N // 2 - 1, params['order'] + 6))
+                params['criteria'] = gen.pick(rng, ['AIC', 'FPE', 'MDL', 'KIC'])
             base = E.min_nfft(cls, params, N)
             NFFT = gen.pick(rng, [None if base <= N else base + 1, base + int(rng.integers(0, 40)), base + 1 + 2 * int(rng.integers(0, 20))])
             out.append({'form': 'class', 'rel': 'scale' if j % 2 == 0 else 'sampling', 'cls': cls, 'p': params, 'N': N,
